@@ -12,6 +12,7 @@ from .ExcludedGcode import EXCLUDE_EXCEPT_FIRST, EXCLUDE_EXCEPT_LAST, EXCLUDE_ME
 from .Position import Position
 from .RetractionState import RetractionState
 from .GcodeParser import GcodeParser
+from .CommonMixin import formatGcodeNumber
 
 IGNORE_GCODE_CMD = (None,)
 
@@ -747,7 +748,9 @@ class ExcludeRegionState(object):  # pylint: disable=too-many-instance-attribute
             # already retracted).  The file's extruder coordinate has moved on, so keep the
             # printer's coordinate in step with it, as is done when leaving a region.
             self.numExcludedCommands += 1
-            returnCommands = ["G92 E{e}".format(e=eAxis.nativeToLogical())]
+            returnCommands = [
+                "G92 E{e}".format(e=formatGcodeNumber(eAxis.nativeToLogical()))
+            ]
 
         if (not returnCommands):
             returnCommands = self.ignoreGcodeCommand()
@@ -851,7 +854,7 @@ class ExcludeRegionState(object):  # pylint: disable=too-many-instance-attribute
 
         returnCommands.append(
             # Set logical extruder position
-            "G92 E{e}".format(e=self.position.E_AXIS.nativeToLogical())
+            "G92 E{e}".format(e=formatGcodeNumber(self.position.E_AXIS.nativeToLogical()))
         )
 
         newZ = self.position.Z_AXIS.nativeToLogical()
@@ -859,8 +862,8 @@ class ExcludeRegionState(object):  # pylint: disable=too-many-instance-attribute
         # units or offsets if those changed while excluding.
         zDelta = self.position.Z_AXIS.current - self.lastPosition.Z_AXIS.current
         moveZcmd = "G0 F{f} Z{z}".format(
-            f=self.feedRate / self.feedRateUnitMultiplier,
-            z=newZ
+            f=formatGcodeNumber(self.feedRate / self.feedRateUnitMultiplier),
+            z=formatGcodeNumber(newZ)
         )
 
         # The generated moves use absolute coordinates.  If the file is in relative positioning
@@ -878,9 +881,9 @@ class ExcludeRegionState(object):  # pylint: disable=too-many-instance-attribute
             # Move X/Y axes to new position
             # Use G0 ("fast" linear move) as this is a non-extruding move
             "G0 F{f} X{x} Y{y}".format(
-                f=self.feedRate / self.feedRateUnitMultiplier,
-                x=self.position.X_AXIS.nativeToLogical(),
-                y=self.position.Y_AXIS.nativeToLogical()
+                f=formatGcodeNumber(self.feedRate / self.feedRateUnitMultiplier),
+                x=formatGcodeNumber(self.position.X_AXIS.nativeToLogical()),
+                y=formatGcodeNumber(self.position.Y_AXIS.nativeToLogical())
             )
         )
 
